@@ -272,4 +272,339 @@ theorem parseBase_no_panic (s : Str) : (parseBase s).isPanic = false := by
                     simp only
                     split <;> rfl
 
+/-! ### completeness: strings of plain class characters are scanned to the end -/
+
+theorem scan_run (pct : Bool) (stop cls : Nat → Bool) (d : Str) (fuel i j : Nat)
+    (h : ∀ k, i ≤ k → k < j → ∃ c, d[k]? = some c ∧ stop c = false ∧ c ≠ 37 ∧ cls c = true)
+    (hend : d[j]? = none ∨ ∃ c, d[j]? = some c ∧ stop c = true)
+    (hij : i ≤ j) (hf : j - i + 1 ≤ fuel) : scan pct stop cls d fuel i = some j := by
+  induction fuel generalizing i with
+  | zero => omega
+  | succ n ih =>
+    unfold scan
+    rcases Nat.eq_or_lt_of_le hij with he | hl
+    · subst he
+      rcases hend with he | ⟨c, hc, hs⟩
+      · rw [he]
+      · rw [hc]; simp [hs]
+    · obtain ⟨c, hc, hs, h37, hcl⟩ := h i (Nat.le_refl _) hl
+      rw [hc]
+      have h37' : (c == 37) = false := by simpa using h37
+      simp only [hs, Bool.false_eq_true, ↓reduceIte, h37', Bool.and_false, hcl]
+      exact ih (i + 1) (fun k hk1 hk2 => h k (by omega) hk2) (by omega) (by omega)
+
+theorem guardScan_run (d : Str) (fuel i j : Nat)
+    (h : ∀ k, i ≤ k → k < j → ∃ c, d[k]? = some c ∧ stopId c = false ∧ c ≠ 37)
+    (hend : d[j]? = none) (hij : i ≤ j) (hf : j - i + 1 ≤ fuel) : guardScan d fuel i = some j := by
+  induction fuel generalizing i with
+  | zero => omega
+  | succ n ih =>
+    unfold guardScan
+    rcases Nat.eq_or_lt_of_le hij with he | hl
+    · subst he; rw [hend]
+    · obtain ⟨c, hc, hs, h37⟩ := h i (Nat.le_refl _) hl
+      rw [hc]
+      have h37' : (c == 37) = false := by simpa using h37
+      have hs' : (c == 47 || c == 63 || c == 35) = false := by simpa [stopId] using hs
+      simp only [hs', Bool.false_eq_true, ↓reduceIte, h37']
+      exact ih (i + 1) (fun k hk1 hk2 => h k (by omega) hk2) (by omega) (by omega)
+
+theorem trim_id (s : Str) (c0 cl : Nat) (r : Str) (hs : s = c0 :: r) (hlast : s.getLast? = some cl)
+    (h0 : ctrlOrSpace c0 = false) (hl : ctrlOrSpace cl = false) : trim s = s := by
+  unfold trim
+  subst hs
+  have e1 : (c0 :: r).dropWhile ctrlOrSpace = c0 :: r := by simp [List.dropWhile, h0]
+  rw [e1]
+  have hrev : (c0 :: r).reverse = cl :: ((c0 :: r).reverse).tail := by
+    have : (c0 :: r).reverse.head? = some cl := by rw [List.head?_reverse]; exact hlast
+    cases hr : (c0 :: r).reverse with
+    | nil => simp at hr
+    | cons x xs => rw [hr] at this; simp at this; subst this; rfl
+  rw [hrev]
+  simp only [List.dropWhile, hl]
+  rw [← hrev, List.reverse_reverse]
+
+theorem isCharMethodName_ne (c : Nat) (h : isCharMethodName c = true) : c ≠ 58 ∧ c ≠ 37 := by
+  unfold isCharMethodName at h
+  simp only [Bool.or_eq_true, Bool.and_eq_true, decide_eq_true_eq] at h
+  omega
+
+theorem isCharMethodId_ne (c : Nat) (h : isCharMethodId c = true) : c ≠ 37 ∧ stopId c = false := by
+  unfold isCharMethodId at h
+  simp only [Bool.or_eq_true, Bool.and_eq_true, decide_eq_true_eq, beq_iff_eq] at h
+  have : c ≠ 37 ∧ c ≠ 47 ∧ c ≠ 63 ∧ c ≠ 35 := by omega
+  refine ⟨this.1, ?_⟩
+  simp [stopId, this.2.1, this.2.2.1, this.2.2.2]
+
+theorem validMethodIdAux_plain (v : Str) (h : ∀ c ∈ v, isCharMethodId c = true) :
+    validMethodIdAux v = true := by
+  induction v with
+  | nil => rfl
+  | cons c r ih =>
+    have hc := h c List.mem_cons_self
+    have hne := (isCharMethodId_ne c hc).1
+    have e : validMethodIdAux (c :: r) = (isCharMethodId c && validMethodIdAux r) := by
+      rw [validMethodIdAux]
+      all_goals simp_all
+    rw [e, hc, ih (fun x hx => h x (List.mem_cons_of_mem _ hx))]
+    rfl
+
+/-- **acceptance direction**: `did:<method>:<id>` with a non-empty method over `[a-z0-9]` and a
+non-empty id over the id characters (no percent-encoding) is accepted, verbatim, with exactly
+these components -/
+theorem parseDid_complete (m id : Str)
+    (hm : m ≠ []) (hmc : ∀ c ∈ m, isCharMethodName c = true ∧ upCharMethod c = true)
+    (hid : id ≠ []) (hidc : ∀ c ∈ id, isCharMethodId c = true ∧ upCharMethodId c = true) :
+    parseDid ([100, 105, 100, 58] ++ m ++ [58] ++ id) =
+      .ok { str := [100, 105, 100, 58] ++ m ++ [58] ++ id,
+            core := ⟨3, 4 + m.length, 5 + m.length + id.length, none, none⟩ } := by
+  have hL : ([100, 105, 100, 58] ++ m ++ [58] ++ id).length = 5 + m.length + id.length := by
+    simp; omega
+  -- element access
+  have hget_m : ∀ k, 4 ≤ k → k < 4 + m.length →
+      ([100, 105, 100, 58] ++ m ++ [58] ++ id)[k]? = m[k - 4]? := by
+    intro k h1 h2
+    rw [List.append_assoc, List.append_assoc, List.getElem?_append_right (by simp; omega)]
+    simp only [List.length_cons, List.length_nil]
+    rw [List.getElem?_append_left (by omega)]
+  have hget_colon : ([100, 105, 100, 58] ++ m ++ [58] ++ id)[4 + m.length]? = some 58 := by
+    rw [List.append_assoc, List.append_assoc, List.getElem?_append_right (by simp)]
+    simp only [List.length_cons, List.length_nil]
+    rw [List.getElem?_append_right (by omega)]
+    have : 4 + m.length - (0 + 1 + 1 + 1 + 1) - m.length = 0 := by omega
+    rw [this]; rfl
+  have hget_id : ∀ k, 5 + m.length ≤ k → k < 5 + m.length + id.length →
+      ([100, 105, 100, 58] ++ m ++ [58] ++ id)[k]? = id[k - (5 + m.length)]? := by
+    intro k h1 h2
+    rw [List.getElem?_append_right (by simp; omega)]
+    congr 1
+    simp; omega
+  have hget_end : ([100, 105, 100, 58] ++ m ++ [58] ++ id)[5 + m.length + id.length]? = none := by
+    rw [List.getElem?_eq_none]; rw [hL]; exact Nat.le_refl _
+  generalize hs : [100, 105, 100, 58] ++ m ++ [58] ++ id = s at *
+  -- trimming changes nothing
+  have hlast : s.getLast? = id.getLast? := by
+    rw [← hs, List.getLast?_append]
+    cases hgl : id.getLast? with
+    | none => rw [List.getLast?_eq_none_iff] at hgl; exact absurd hgl hid
+    | some x => simp
+  obtain ⟨cl, hcl⟩ : ∃ cl, id.getLast? = some cl := by
+    cases hgl : id.getLast? with
+    | none => rw [List.getLast?_eq_none_iff] at hgl; exact absurd hgl hid
+    | some x => exact ⟨x, rfl⟩
+  have hclmem : cl ∈ id := List.mem_of_getLast? hcl
+  have hclcls := (hidc cl hclmem).1
+  have hctl : ctrlOrSpace cl = false := by
+    unfold isCharMethodId at hclcls
+    simp only [Bool.or_eq_true, Bool.and_eq_true, decide_eq_true_eq, beq_iff_eq] at hclcls
+    unfold ctrlOrSpace
+    have : ¬ cl ≤ 32 ∧ cl ≠ 127 := by omega
+    simp [this.1, this.2]
+  have htrim : trim s = s := by
+    apply trim_id s 100 cl (s.tail) (by rw [← hs]; rfl) (by rw [hlast, hcl]) (by decide) hctl
+  -- the scans
+  have hscan1 : scan false stopColon upCharMethod s (s.length + 1) 4 = some (4 + m.length) := by
+    apply scan_run
+    · intro k h1 h2
+      rw [hget_m k h1 h2]
+      have hk : k - 4 < m.length := by omega
+      refine ⟨m[k - 4], List.getElem?_eq_getElem hk, ?_, ?_, ?_⟩
+      · have := (isCharMethodName_ne _ (hmc _ (List.getElem_mem hk)).1).1
+        simp [stopColon, this]
+      · exact (isCharMethodName_ne _ (hmc _ (List.getElem_mem hk)).1).2
+      · exact (hmc _ (List.getElem_mem hk)).2
+    · right; exact ⟨58, hget_colon, by decide⟩
+    · omega
+    · rw [hL]; omega
+  have hscan2 : scan true stopId upCharMethodId s (s.length + 1) (4 + m.length + 1) =
+      some (5 + m.length + id.length) := by
+    apply scan_run
+    · intro k h1 h2
+      rw [hget_id k (by omega) h2]
+      have hk : k - (5 + m.length) < id.length := by omega
+      refine ⟨id[k - (5 + m.length)], List.getElem?_eq_getElem hk, ?_, ?_, ?_⟩
+      · exact (isCharMethodId_ne _ (hidc _ (List.getElem_mem hk)).1).2
+      · exact (isCharMethodId_ne _ (hidc _ (List.getElem_mem hk)).1).1
+      · exact (hidc _ (List.getElem_mem hk)).2
+    · left; exact hget_end
+    · omega
+    · rw [hL]; omega
+  have htail : parseTail s (5 + m.length + id.length) = some (5 + m.length + id.length, none, none) := by
+    unfold parseTail
+    simp only
+    have : scan true stopPath upCharPath s (s.length + 1) (5 + m.length + id.length) =
+        some (5 + m.length + id.length) := by
+      unfold scan; rw [hget_end]
+    rw [this]
+    simp only [hget_end]
+  -- slices
+  have hsl1 : sl s 4 (4 + m.length) = m := by
+    rw [← hs]; simp [sl]
+  have hsl2 : sl s (4 + m.length + 1) (5 + m.length + id.length) = id := by
+    rw [← hs]
+    unfold sl
+    have e : 5 + m.length + id.length - (4 + m.length + 1) = id.length := by omega
+    rw [e]
+    have : List.drop (4 + m.length + 1) ([100, 105, 100, 58] ++ m ++ [58] ++ id) = id := by
+      rw [List.append_assoc, List.append_assoc, List.drop_append]
+      simp only [List.length_cons, List.length_nil]
+      have e1 : 4 + m.length + 1 - (0 + 1 + 1 + 1 + 1) = m.length + 1 := by omega
+      rw [e1]
+      have e0 : List.drop (4 + m.length + 1) [100, 105, 100, 58] = [] := by
+        apply List.drop_eq_nil_of_le; simp; omega
+      rw [e0, List.nil_append, List.drop_append]
+      have e2 : List.drop (m.length + 1) m = [] := List.drop_eq_nil_of_le (by omega)
+      rw [e2, List.nil_append]
+      have e3 : m.length + 1 - m.length = 1 := by omega
+      rw [e3]; rfl
+    rw [this, List.take_length]
+  have hup : upParse s = .ok ⟨3, 4 + m.length, 5 + m.length + id.length, none, none⟩ := by
+    unfold upParse
+    simp only [htrim]
+    have h3 : (s.take 3 != [100, 105, 100]) = false := by rw [← hs]; rfl
+    have h58 : (s[3]? != some 58) = false := by rw [← hs]; rfl
+    have hc58 : (s[4 + m.length]? != some 58) = false := by rw [hget_colon]; rfl
+    simp only [h3, Bool.false_eq_true, ↓reduceIte, h58, hscan1, hc58, hscan2, htail]
+    rw [slice_ok s 4 (4 + m.length) ⟨by omega, by rw [hL]; omega⟩, hsl1]
+    simp only
+    have hme : m.isEmpty = false := by cases m <;> simp_all
+    simp only [hme, Bool.false_eq_true, ↓reduceIte]
+    rw [slice_ok s (4 + m.length + 1) (5 + m.length + id.length) ⟨by omega, by rw [hL]; omega⟩, hsl2]
+    simp only
+    have hie : id.isEmpty = false := by cases id <;> simp_all
+    simp only [hie, Bool.false_eq_true, ↓reduceIte]
+  -- the guard
+  have hover : overruns s = false := by
+    unfold overruns
+    rw [colonFrom4_eq upCharMethod s _ _ hscan1 hget_colon]
+    simp only
+    have : guardScan s (s.length + 1) (4 + m.length + 1) = some (5 + m.length + id.length) := by
+      apply guardScan_run
+      · intro k h1 h2
+        rw [hget_id k (by omega) h2]
+        have hk : k - (5 + m.length) < id.length := by omega
+        exact ⟨id[k - (5 + m.length)], List.getElem?_eq_getElem hk,
+          (isCharMethodId_ne _ (hidc _ (List.getElem_mem hk)).1).2,
+          (isCharMethodId_ne _ (hidc _ (List.getElem_mem hk)).1).1⟩
+      · exact hget_end
+      · omega
+      · rw [hL]; omega
+    rw [this]
+    simp [hL]
+  unfold parseDid parseBase
+  have ht : (trim s != s) = false := by simp [htrim]
+  simp only [ht, Bool.false_eq_true, ↓reduceIte, hover, hup]
+  have hcv : checkValidity s ⟨3, 4 + m.length, 5 + m.length + id.length, none, none⟩ = true := by
+    unfold checkValidity Core.methodOf Core.methodIdOf Core.pathOf Core.fragmentOf Core.queryOf
+    simp only [hsl1, hsl2, Option.map_none, Option.isNone_none, Bool.and_true]
+    have hp : (s.drop (5 + m.length + id.length)).isEmpty = true := by
+      rw [List.drop_eq_nil_of_le (by rw [hL]; exact Nat.le_refl _)]; rfl
+    have hvn : validMethodName m = true := by
+      unfold validMethodName
+      have hme : m.isEmpty = false := by cases m <;> simp_all
+      simp only [hme, Bool.not_false, Bool.true_and, List.all_eq_true]
+      exact fun c hc => (hmc c hc).1
+    have hvi : validMethodId id = true := by
+      unfold validMethodId
+      have hie : id.isEmpty = false := by cases id <;> simp_all
+      simp only [hie, Bool.not_false, Bool.true_and]
+      exact validMethodIdAux_plain id (fun c hc => (hidc c hc).1)
+    simp [hvn, hvi, hp]
+  simp only [hcv, ↓reduceIte]
+
+/-- the shape of every accepted plain DID, in terms of indices -/
+theorem parseDid_ok_core (s : Str) (d : CoreDid) (h : parseDid s = .ok d) :
+    d.str = s ∧ ∃ i, d.core = ⟨3, i, s.length, none, none⟩ ∧ 4 ≤ i ∧ i < s.length ∧
+      s.take 4 = [100, 105, 100, 58] ∧ s[i]? = some 58 ∧
+      validMethodName (sl s 4 i) = true ∧ validMethodId (s.drop (i + 1)) = true ∧
+      s = [100, 105, 100, 58] ++ sl s 4 i ++ [58] ++ s.drop (i + 1) := by
+  unfold parseDid at h
+  cases hb : parseBase s with
+  | panic m => rw [hb] at h; cases h
+  | err e => rw [hb] at h; cases h
+  | ok c =>
+    rw [hb] at h
+    simp only at h
+    split at h
+    · rename_i hv
+      injection h with h
+      subst h
+      unfold parseBase at hb
+      split at hb
+      · cases hb
+      · rename_i ht
+        have ht' : trim s = s := by simpa using ht
+        split at hb
+        · cases hb
+        · obtain ⟨i, p, q, f, hc, h3, h58, hi58, hge, hle, hip, hpl, hm, hmid, _, _⟩ := upParse_ok s c hb
+          rw [ht'] at h3 h58 hi58
+          subst hc
+          unfold checkValidity at hv
+          simp only [Bool.and_eq_true] at hv
+          obtain ⟨⟨⟨⟨hvn, hvi⟩, hpe⟩, hfr⟩, hqu⟩ := hv
+          have hq : q = none := by
+            cases q with
+            | none => rfl
+            | some qq => cases f <;> simp [Core.queryOf] at hqu
+          have hf : f = none := by
+            cases f with
+            | none => rfl
+            | some ff => simp [Core.fragmentOf] at hfr
+          subst hq; subst hf
+          have hpath : s.drop p = [] := by simpa [Core.pathOf] using hpe
+          have hp : p = s.length := by
+            have := List.drop_eq_nil_iff.1 hpath; omega
+          subst hp
+          have hlt := getElem?_lt s i 58 hi58
+          have h4 : s.take 4 = [100, 105, 100, 58] := by
+            have e1 : s.take 4 = s.take 3 ++ (s.drop 3).take 1 := by
+              rw [← List.take_add]
+            rw [e1, h3]
+            have : (s.drop 3).take 1 = [58] := by
+              have hl3 := getElem?_lt s 3 58 h58
+              rw [List.drop_eq_getElem_cons hl3]
+              have := (List.getElem?_eq_some_iff.1 h58).2
+              simp [this]
+            rw [this]; rfl
+          have hmidv : Core.methodIdOf ⟨3, i, s.length, none, none⟩ s = s.drop (i + 1) := by
+            show sl s (i + 1) s.length = _
+            unfold sl; rw [List.take_of_length_le (by simp)]
+          rw [hmidv] at hvi
+          have hrec : s = [100, 105, 100, 58] ++ sl s 4 i ++ [58] ++ s.drop (i + 1) := by
+            have e2 : s = s.take 4 ++ s.drop 4 := (List.take_append_drop 4 s).symm
+            have e3 : s.drop 4 = (s.drop 4).take (i - 4) ++ (s.drop 4).drop (i - 4) :=
+              (List.take_append_drop (i - 4) (s.drop 4)).symm
+            have e4 : (s.drop 4).drop (i - 4) = s.drop i := by
+              rw [List.drop_drop]; congr 1; omega
+            have e5 : s.drop i = 58 :: s.drop (i + 1) := by
+              rw [List.drop_eq_getElem_cons hlt]
+              have := (List.getElem?_eq_some_iff.1 hi58).2
+              simp [this]
+            conv => lhs; rw [e2, h4, e3, e4, e5]
+            simp [sl]
+          exact ⟨rfl, i, rfl, hge, hlt, h4, hi58, hvn, hvi, hrec⟩
+    · cases h
+
+theorem sl_method (m id : Str) : sl ([100, 105, 100, 58] ++ m ++ [58] ++ id) 4 (4 + m.length) = m := by
+  simp [sl]
+
+theorem sl_id (m id : Str) :
+    sl ([100, 105, 100, 58] ++ m ++ [58] ++ id) (4 + m.length + 1) (5 + m.length + id.length) = id := by
+  unfold sl
+  have e : 5 + m.length + id.length - (4 + m.length + 1) = id.length := by omega
+  rw [e]
+  have : List.drop (4 + m.length + 1) ([100, 105, 100, 58] ++ m ++ [58] ++ id) = id := by
+    rw [List.append_assoc, List.append_assoc, List.drop_append]
+    simp only [List.length_cons, List.length_nil]
+    have e1 : 4 + m.length + 1 - (0 + 1 + 1 + 1 + 1) = m.length + 1 := by omega
+    rw [e1]
+    have e0 : List.drop (4 + m.length + 1) [100, 105, 100, 58] = [] := by
+      apply List.drop_eq_nil_of_le; simp; omega
+    rw [e0, List.nil_append, List.drop_append]
+    have e2 : List.drop (m.length + 1) m = [] := List.drop_eq_nil_of_le (by omega)
+    rw [e2, List.nil_append]
+    have e3 : m.length + 1 - m.length = 1 := by omega
+    rw [e3]; rfl
+  rw [this, List.take_length]
+
 end IdModel.Did
